@@ -183,6 +183,16 @@ func (d *Driver) projEvents(evs []*eb.StoredEvent, s int) (out []map[string]any,
 	return
 }
 
+// metricsOK: the SQLite store's metrics hook was called exactly once for the operation, with the operation's kind,
+// its error flag and (for reads) the number of events it returned.  True for stores without a hook.
+func (d *Driver) metricsOK(s int, kind string, count int, failed bool) bool {
+	if s >= len(d.env.Metrics) || d.env.Metrics[s] == nil {
+		return true
+	}
+	calls := d.env.Metrics[s].Take()
+	return len(calls) == 1 && calls[0].Kind == kind && calls[0].Err == failed && (kind != "read" || calls[0].Count == count)
+}
+
 func (d *Driver) remember(s int, tok string, isEventTok bool) {
 	for _, t := range d.toks[s] {
 		if t[1:] == tok {
@@ -234,7 +244,7 @@ func (d *Driver) Append(s int, o Opts) {
 	d.maxTok[s] = string(off) // compare with the previous append (a non-increasing step is reported once)
 	d.napp[s]++
 	d.remember(s, string(off), false)
-	d.emit(map[string]any{"e": "append", "s": sname(s), "id": id, "tok": string(off), "gt": gt})
+	d.emit(map[string]any{"e": "append", "s": sname(s), "id": id, "tok": string(off), "gt": gt, "mok": d.metricsOK(s, "append", 0, false)})
 }
 
 func (d *Driver) Read(s int, from string, limit int) {
@@ -245,7 +255,7 @@ func (d *Driver) Read(s int, from string, limit int) {
 	}
 	pe, ok, why := d.projEvents(evs, s)
 	d.remember(s, string(next), false)
-	m := map[string]any{"e": "read", "s": sname(s), "from": from, "limit": limit, "evs": pe, "next": string(next), "ok": ok}
+	m := map[string]any{"e": "read", "s": sname(s), "from": from, "limit": limit, "evs": pe, "next": string(next), "ok": ok, "mok": d.metricsOK(s, "read", len(evs), false)}
 	if !ok {
 		m["why"] = why
 	}
@@ -266,7 +276,7 @@ func (d *Driver) Stream(s int, from string) {
 		evs = append(evs, e)
 	}
 	pe, ok, why := d.projEvents(evs, s)
-	m := map[string]any{"e": "stream", "s": sname(s), "from": from, "evs": pe, "ok": ok}
+	m := map[string]any{"e": "stream", "s": sname(s), "from": from, "evs": pe, "ok": ok, "mok": d.metricsOK(s, "read", len(evs), false)}
 	if !ok {
 		m["why"] = why
 	}
@@ -282,7 +292,7 @@ func (d *Driver) Save(s int, sub, tok string) {
 		d.fail("save", s, err)
 		return
 	}
-	d.emit(map[string]any{"e": "save", "s": sname(s), "sub": sub, "tok": tok})
+	d.emit(map[string]any{"e": "save", "s": sname(s), "sub": sub, "tok": tok, "mok": d.metricsOK(s, "save", 0, false)})
 }
 
 func (d *Driver) Load(s int, sub string) {
@@ -296,7 +306,7 @@ func (d *Driver) Load(s int, sub string) {
 		return
 	}
 	d.remember(s, string(tok), false)
-	d.emit(map[string]any{"e": "load", "s": sname(s), "sub": sub, "tok": string(tok)})
+	d.emit(map[string]any{"e": "load", "s": sname(s), "sub": sub, "tok": string(tok), "mok": d.metricsOK(s, "load", 0, false)})
 }
 
 // ConcurrentAppends lets several goroutines append to store s at the same time.  The appends are
@@ -400,7 +410,10 @@ func (d *Driver) ConcurrentVia(s int, workers, per int, do func(id int) (string,
 		d.maxTok[s] = r.tok
 		d.napp[s]++
 		d.remember(s, r.tok, false)
-		d.emit(map[string]any{"e": "append", "s": sname(s), "id": id, "tok": r.tok, "gt": gt, "concurrent": true})
+		d.emit(map[string]any{"e": "append", "s": sname(s), "id": id, "tok": r.tok, "gt": gt, "concurrent": true, "mok": true})
+	}
+	if s < len(d.env.Metrics) && d.env.Metrics[s] != nil {
+		d.env.Metrics[s].Take() // callbacks of the concurrent phase are not attributed to single operations
 	}
 	for i := range recs { // appends the store acknowledged but does not hold
 		if !seen[recs[i].id] {
@@ -447,7 +460,7 @@ func (d *Driver) RunRandom(o Opts) {
 				break
 			}
 			pe, ok, why := d.projEvents(evs, s)
-			m := map[string]any{"e": "read", "s": sname(s), "from": from, "limit": lim, "evs": pe, "next": string(next), "ok": ok}
+			m := map[string]any{"e": "read", "s": sname(s), "from": from, "limit": lim, "evs": pe, "next": string(next), "ok": ok, "mok": d.metricsOK(s, "read", len(evs), false)}
 			if !ok {
 				m["why"] = why
 			}
